@@ -14,6 +14,10 @@ def make_compare(key):
             if str(impl["error"]).startswith("generated problem is invalid"):
                 return {"skipped": True}
             return {"agree": True, "holds": False, "detail": "solver returned an error: " + str(impl["error"])[:300]}
+        if info.get("operator_history") and key != "partition":
+            # what an operator history ends in is judged by the partition specification only (pins, relation exemptions and
+            # schedules of histories are C04's and C05's subject)
+            return {"skipped": True}
         if info.get("clustered") and key != "partition":
             # vicinity clustering (commute, parking) is outside the feasibility / replay specifications
             return {"skipped": True}
@@ -31,7 +35,8 @@ def nontrivial(case, v):
 
 def extra(cases, verdicts):
     import collections
-    cfgs = collections.Counter((c.get("impl") or {}).get("config", "?") for c in cases)
+    cfg_of = lambda c: "operator-history/-/-" if c.get("k") == "ophist" else (c.get("impl") or {}).get("config", "?")
+    cfgs = collections.Counter(cfg_of(c) for c in cases)
     pops = collections.Counter(k.split("/")[0] for k in cfgs.elements())
     hyp = collections.Counter(k.split("/")[1] if "/" in k else "?" for k in cfgs.elements())
     par = collections.Counter(k.split("/")[2] if k.count("/") >= 2 else "?" for k in cfgs.elements())
@@ -52,7 +57,8 @@ def extra(cases, verdicts):
         if sp.get("objectives"): feats["explicit_objectives"] += 1
         if sp.get("clustering"): feats["vicinity_clustering"] += 1
         if (sp.get("clustering") or {}).get("filtering") is not None: feats["clustering_with_explicit_filtering"] += 1
-    return {"solver_runs": len(cases), "tours_checked": tours, "populations": dict(pops), "hyper_heuristics": dict(hyp),
+    return {"solver_runs": sum(1 for c in cases if c.get("k") != "ophist"),
+            "operator_histories_judged_by_partition": sum(1 for c in cases if c.get("k") == "ophist"), "tours_checked": tours, "populations": dict(pops), "hyper_heuristics": dict(hyp),
             "parallelism_layouts": dict(par), "problem_features": dict(feats)}
 
 
